@@ -121,8 +121,8 @@ def parseSEv (tok : String) : Option SEv :=
 
 open Gallia.LossSys in
 def showObs : Obs → String
-  | .req o _ t1 n => s!"req:{showOut o}:{t1}:{n}"
-  | .rd r _ t1 => s!"rd:{showRes r}:{t1}"
+  | .req o _ _ t1 n => s!"req:{showOut o}:{t1}:{n}"
+  | .rd r _ _ t1 => s!"rd:{showRes r}:{t1}"
   | .closed t => s!"closed:{t}"
   | .rc r _ t1 n => s!"rc:{match r with | .ok => "ok" | .refused => "refused" | .timedOut => "timedout"}:{t1}:{n}"
 
